@@ -20,6 +20,7 @@ a module table, regenerated from /repo on every run).
                          one-shot end, swap stop, Protracker hot swap, loop change) the sample table
                          equals the original whenever control leaves a voice iteration; every mix
                          kernel sees exactly the patched original (`C15_skeleton_kernel_view`);
+* `C15_invloop_in_loop`  the one legal writer, `update_invloop`, stores only inside the loop of its sample;
 * `C15_writers`          every generated store site belongs to an allowed class.
 -/
 namespace Xmp.Wrap
@@ -167,6 +168,44 @@ example :
     let v : VoiceRun := { vi := { smp := 0, start := 1, «end» := 4 }, xxs := { loop := true }, steps := steps }
     let r := runVoice genConsts false mem v
     r.1 = mem ∧ r.2.length = 4 ∧ (∀ e ∈ r.2, e.2.2 ≠ mem) := by decide
+
+/-! ## the one legal writer -/
+
+/-- **Invert-loop stays inside the loop.** Whatever the channel's invert-loop state (any speed, counter,
+position `≥ 0` — also one left over from a longer loop of another sample), whatever the table: if
+`update_invloop` stores at all, the index lies inside the loop `[lps, lpe)` of the sample (inside the
+sustain loop `[sus, sue)` when the sample has only that), and the position stays `≥ 0`.  Needs the
+loader's guarantee that a flagged loop is non-empty. -/
+theorem C15_invloop_in_loop (table : List Nat) (resetPos : Bool) (st : InvState) (s : InvSample)
+    (hpos : 0 ≤ st.pos) (hl : s.loop = true → s.lps < s.lpe) (hs : s.loop = false → s.sloop = true → s.sus < s.sue) :
+    0 ≤ (invloopStep table resetPos st (some s)).1.pos ∧
+    ∀ i, (invloopStep table resetPos st (some s)).2 = some i →
+      (s.loop = true ∧ s.lps ≤ i ∧ i < s.lpe) ∨ (s.loop = false ∧ s.sloop = true ∧ s.sus ≤ i ∧ i < s.sue) := by
+  unfold invloopStep
+  have h := invloopCore_spec table resetPos st (invRange (some s)).1 (invRange (some s)).2 (invCanStore (some s)) hpos
+  refine ⟨h.1, ?_⟩
+  intro i hi
+  have h2 := h.2 i hi
+  unfold invRange at h2
+  by_cases hloop : s.loop = true
+  · simp only [hloop, if_true] at h2
+    have := hl hloop
+    left; exact ⟨hloop, by omega, by omega⟩
+  · have hloop' : s.loop = false := by simpa using hloop
+    by_cases hsl : s.sloop = true
+    · simp only [hloop', hsl, if_true, Bool.false_eq_true, if_false] at h2
+      have := hs hloop' hsl
+      right; exact ⟨hloop', hsl, by omega, by omega⟩
+    · simp only [hloop', hsl, Bool.false_eq_true, if_false] at h2
+      omega
+
+/-- the hypotheses are satisfiable and the store really happens and wraps: position 15 of a 16-byte
+loop `[8, 24)` at full speed goes back to the loop start -/
+example :
+    (invloopStep invloopTable false { speed := 15, count := 0, pos := 15 } (some { loop := true, lps := 8, lpe := 24 })) = ({ speed := 15, count := 0, pos := 0 }, some 8) ∧
+    (invloopStep invloopTable false { speed := 15, count := 0, pos := 14 } (some { loop := true, lps := 8, lpe := 24 })).2 = some 23 ∧
+    (invloopStep invloopTable false { speed := 1, count := 100, pos := 3 } (some { loop := true, lps := 8, lpe := 24 })) = ({ speed := 1, count := 105, pos := 3 }, none) := by
+  decide
 
 /-! ## who may store into module data -/
 
